@@ -401,7 +401,7 @@ class trio_run_payload:
     def _r(c, self, payload, exc):
         return c.Or(c.And(c.event_at(0) == c.event("in-trio-thread", self._trio_token), _passes_through(c, payload.t, 1, exc=exc)),
                     # preconditions of trio.from_thread.run (the property excludes same-flavour calls and a finished runtime)
-                    c.And(c.n_events() == 1, c.Or(ev_kind(c, 0, "from_thread.run-finished"), ev_kind(c, 0, "from_thread.run-same-thread"))))
+                    c.And(c.n_events() == 1, c.Or(ev_kind(c, 0, "from_thread.run-finished"), ev_kind(c, 0, "from_thread.run-same-thread"), ev_kind(c, 0, "from_thread.run-cancelled"))))
 
     raises = {"BaseException": _r}
 
@@ -616,3 +616,80 @@ class meta_register:
             local_types={"payload": TAny()},
         )
     }
+
+
+# ================================================================================ adopt / services (C03, C12)
+def _registered_object_ok(c, term, payload, args, kwargs):
+    """the object handed on is the payload itself (no arguments) or functools.partial(payload, *args, **kwargs)
+    (assumed contract of partial: partial(f,*a,**k)() == f(*a,**k); partial objects are identified by (f, a, k))"""
+    if len(args) == 0 and not kwargs:
+        return term == payload.t
+    bound = PartialFn(SV(payload.t, payload.ty), [SV(a.t) for a in args], {k: SV(v.t) for k, v in kwargs.items()})
+    return term == c.ctx.to_val(bound).t
+
+
+@contract(RUN + "service:ServiceRunner.adopt", props=["C03"])
+class adopt:
+    """adopt hands exactly one object on - the payload, or partial(payload, *args, **kwargs) - to the runner of the requested
+    flavour, or queues it before the runners exist; it returns None and raises nothing for the runtime's three flavours"""
+    params = {"self": SvcR, "payload": Payload2, "args": _some_args, "flavour": TAny(), "kwargs": _some_kwargs}
+    has_events = True
+
+    def requires(c, self, payload, args, flavour, kwargs):
+        return known_flavour(c, flavour)
+
+    def writes(c, self, payload, args, flavour, kwargs):
+        return [("all", f, lambda x: True) for f in HEAPS]
+
+    def ensures(c, self, payload, args, flavour, kwargs):
+        m0 = c.old(self)._meta_runner
+        present = m0._runners.has(flavour)
+        runner = m0._runners[flavour]
+        idle = c.And(c.Not(present), c.Not(flag(m0.running, "isset")))
+        q1 = c.new(m0)._runner_queues[flavour]
+        len0 = z3.If(m0._runner_queues.has(flavour), m0._runner_queues[flavour].len, 0)
+        e0 = c.event_at(0)
+        return {
+            "running-runtime-the-bound-payload-goes-to-the-runner-of-the-requested-flavour-exactly-once": c.Implies(present, c.And(
+                c.n_events() == 1, Event.e_kind(e0) == c.ctx.E.event_kind("register_payload"), Event.e_a(e0) == runner.t,
+                _registered_object_ok(c, Event.e_b(e0), payload, args, kwargs))),
+            "before-start-nothing-is-started-yet": c.Implies(idle, c.no_events()),
+            "before-start-queued-exactly-once": c.Implies(idle, q1.len == len0 + 1),
+            "before-start-the-bound-payload-is-what-is-queued-under-its-flavour": c.Implies(idle, _registered_object_ok(c, q1.item_term(len0), payload, args, kwargs)),
+            "discarded-only-while-shutting-down": c.Implies(c.And(c.Not(present), c.Not(idle)), c.no_events()),
+        }
+    # raises = {}
+
+
+SvcObj = TAbs("Service", fields=dict(run=TAny()), events=False)
+_deref = amethod("weakref.ref.__call__", {"self": None}, doc="weakref: returns the referent or None", result=TOpt(SvcObj))
+WeakRef = TFn(_deref)
+_deref.params["self"] = WeakRef
+Unit = TObj(RUN + "service:ServiceUnit", service=WeakRef, flavour=TAny(), _started=TBool())
+
+
+@contract(RUN + "service:ServiceUnit.start", props=["C03"])
+class unit_start:
+    """a live service is marked started and its run method is handed on exactly once in the unit's flavour; a collected one is skipped"""
+    params = dict(self=Unit, runner=MetaR)
+    has_events = True
+
+    def requires(c, self, runner):
+        return known_flavour(c, self.flavour)
+
+    def writes(c, self, runner):
+        return [(self, "_started")] + [("all", f, lambda x: True) for f in HEAPS]
+
+    def ensures(c, self, runner):
+        r0 = c.old(runner)
+        fl = c.old(self).flavour
+        present = r0._runners.has(fl)
+        e0 = c.event_at(0)
+        alive = Z.Val.b(self._started.t)
+        svc = Z.Val.b(c.old(self)._started.t)
+        return {
+            "started-flag-only-ever-rises": c.Implies(svc, alive),
+            "a-started-unit-with-running-runtime-registered-its-run-method-exactly-once-in-its-flavour": c.Implies(
+                c.And(alive, c.Not(svc), present), c.And(c.n_events() == 1, Event.e_kind(e0) == c.ctx.E.event_kind("register_payload"), Event.e_a(e0) == r0._runners[fl].t)),
+            "a-collected-service-is-skipped": c.Implies(c.And(c.Not(alive), c.Not(svc)), c.And(c.no_events(), *[c.ctx.rd(c.new_heap, f) == c.ctx.rd(c.old_heap, f) for f in HEAPS])),
+        }
